@@ -105,13 +105,20 @@ class _Ref:
         return SDp * self._pow(N / NDp, -1.0 / self.k2)
 
 
+def _as_int(x):
+    return int(x) if isinstance(x, float) and math.isfinite(x) and x == int(x) else x
+
+
 def _pd_curve(c, integer=False):
-    d = {"k_1": c["k_1"], "SD": c["SD"], "ND": c["ND"]}
+    """the curve as a pandas Series; with c["ints"] whole-number parameters are python ints (an all-int curve is an int64 Series)"""
+    ints = bool(c.get("ints"))
+    conv = _as_int if ints else (lambda x: x)
+    d = {"k_1": conv(c["k_1"]), "SD": conv(c["SD"]), "ND": conv(c["ND"])}
     k2 = c.get("k_2")
     if k2 == "inf":
         d["k_2"] = np.inf
     elif k2 not in (None, "absent"):
-        d["k_2"] = k2
+        d["k_2"] = conv(k2)
     for key in ("TN", "TS"):
         if c.get(key) is not None:
             d[key] = c[key]
@@ -150,14 +157,20 @@ PROBS = st.one_of(st.sampled_from([0.5, 0.1, 0.9, 0.025, 0.975, 1e-6, 1 - 1e-6, 
 
 
 @st.composite
-def curves(draw, scatter=None):
-    k1 = draw(st.one_of(st.sampled_from([1.5, 2.0, 3.0, 5.0, 7.0, 10.0, 30.0]), st.floats(1.01, 30.0, allow_nan=False)))
-    kind = draw(st.sampled_from(["inf", "absent", "k_1", "haibach", "float"]))
+def curves(draw, scatter=None, ints=False):
+    """ints: k_1, SD, ND (and k_2 = k_1 / 2k_1-1) are whole numbers, handed to pyLife as integers; a 'float' k_2 stays non-integer"""
+    if ints:
+        k1 = float(draw(st.integers(2, 30)))
+    else:
+        k1 = draw(st.one_of(st.sampled_from([1.5, 2.0, 3.0, 5.0, 7.0, 10.0, 30.0]), st.floats(1.01, 30.0, allow_nan=False)))
+    kind = draw(st.sampled_from(["inf", "absent", "k_1", "haibach", "float"] + (["float"] if ints else [])))
     k2 = {"inf": "inf", "absent": None, "k_1": k1, "haibach": 2.0 * k1 - 1.0}.get(kind, None)
     if kind == "float":
-        k2 = k1 * draw(st.floats(1.0, 3.0, allow_nan=False))
+        k2 = k1 + draw(st.sampled_from([0.5, 1.5, 0.25, 3.5])) if ints else k1 * draw(st.floats(1.0, 3.0, allow_nan=False))
     SD = draw(st.one_of(st.sampled_from([1.0, 100.0, 250.0, 1e4]), _pow10(0, 4)))
     ND = draw(st.one_of(st.sampled_from([1e3, 1e6, 2e6, 1e8]), _pow10(3, 8)))
+    if ints:
+        SD, ND = float(max(1, round(SD))), float(max(1, round(ND)))
     sk = scatter or draw(st.sampled_from(["absent", "one", "TN", "TN", "TS", "both"]))
     big = st.one_of(st.sampled_from([1.0, 1.25, 2.0, 4.0, 30.0]), st.floats(1.0, 30.0, allow_nan=False))
     TN = TS = None
@@ -171,7 +184,10 @@ def curves(draw, scatter=None):
     elif sk == "both":
         TN, TS = draw(big), draw(big)
     p0 = draw(st.one_of(st.none(), st.just(0.5), PROBS))
-    return {"k_1": k1, "k_2": k2, "SD": SD, "ND": ND, "TN": TN, "TS": TS, "p0": p0}
+    out = {"k_1": k1, "k_2": k2, "SD": SD, "ND": ND, "TN": TN, "TS": TS, "p0": p0}
+    if ints:
+        out["ints"] = True
+    return out
 
 
 # a load / cycle spec is a factor relative to the knee or one of the exact knee markers
@@ -199,6 +215,8 @@ def _near(spec):
 
 
 def _label_curve(c, ctx):
+    if c.get("ints"):
+        ctx.label("params:int")
     k2 = c.get("k_2")
     ctx.label("k2:" + ("inf" if k2 in (None, "inf") else "k_1" if k2 == c["k_1"] else "haibach" if k2 == 2.0 * c["k_1"] - 1.0 else "float"))
     ctx.label("scatter:" + ("both" if c["TN"] is not None and c["TS"] is not None else "TN" if c["TN"] is not None
@@ -211,6 +229,8 @@ NUM = st.sampled_from(["float", "float", "int", "np.int64"])
 
 def _typed(x, num):
     """the number as the Python/numpy type the case asks for (integer types: x is a whole number)"""
+    if not math.isfinite(x):
+        return float(x)
     if num != "float" and x > 2.0 ** 53:      # beyond exact whole-number doubles (and soon beyond int64): stays a float
         return float(x)
     if num == "int":
@@ -235,8 +255,9 @@ def _peff(p):
 # --------------------------------------------------------------------------- 1. inverses
 @st.composite
 def _inverse_cases(draw, tier):
-    return {"curve": draw(curves()), "p": draw(st.one_of(st.none(), PROBS)), "same_as_native": draw(st.integers(0, 3)) == 0,
-            "load": draw(SPEC), "cycles": draw(NSPEC), "acc": draw(st.sampled_from(["woehler", "fatigue"])), "num": draw(NUM)}
+    return {"curve": draw(curves(ints=draw(st.integers(0, 3)) == 0)), "p": draw(st.one_of(st.none(), PROBS)),
+            "same_as_native": draw(st.integers(0, 3)) == 0,
+            "load": draw(st.one_of(SPEC, SPEC, SPEC, SPEC, st.just("zero"))), "cycles": draw(st.one_of(NSPEC, NSPEC, NSPEC, NSPEC, st.just("inf"))), "acc": draw(st.sampled_from(["woehler", "fatigue"])), "num": draw(NUM)}
 
 
 @subcheck(PROP, "inverse", strategy=_inverse_cases, quick=4000, thorough=150000,
@@ -259,6 +280,20 @@ def inverse(case, ctx):
     # integer-typed scalars (python int, np.int64): whole-number loads and cycle numbers, passed as that type
     num = case.get("num", "float")
     ctx.label("num:" + num)
+    # the two ends of the curve: load 0 is endurable for ever; an infinite cycle number is endured by SD (k_2 = inf) or by no load at all
+    if case["load"] == "zero":
+        n0 = _f(acc.cycles(_typed(0.0, num), **_kw(p)))
+        ctx.label("load:zero")
+        if n0 != math.inf:
+            raise Violation("cycles(0, P=%r) = %r, expected inf" % (pe, n0), bucket="inverse:zero-load")
+    if case["cycles"] == "inf":
+        l0 = _f(acc.load(math.inf, **_kw(p)))
+        ctx.label("cycles:inf")
+        want = SDp if math.isinf(ref.k2) else 0.0
+        if l0 != want:
+            raise Violation("load(inf, P=%r) = %r with k_2 = %r, expected %r" % (pe, l0, ref.k2, want), bucket="inverse:inf-cycles")
+    if case["load"] == "zero" or case["cycles"] == "inf":
+        case = dict(case, load="knee-" if case["load"] == "zero" else case["load"], cycles="knee+" if case["cycles"] == "inf" else case["cycles"])
     # load -> cycles -> load
     S = _resolve(case["load"], SDp)
     if num != "float":
@@ -400,7 +435,18 @@ def _miner_cases(draw, tier):
 def _container(cs, frame):
     if not frame:
         return _pd_curve(cs[0])
-    return pd.DataFrame([_pd_curve(c) for c in cs], index=pd.Index(["c%d" % i for i in range(len(cs))], name="curve"))
+    rows = [_pd_curve(c) for c in cs]
+    idx = pd.Index(["c%d" % i for i in range(len(cs))], name="curve")
+    if not all(c.get("ints") for c in cs):
+        return pd.DataFrame(rows, index=idx)
+    # column-wise, so that a column of whole numbers is an int64 column next to float columns (e.g. k_1 int64, k_2 float64)
+    cols = {}
+    for key in rows[0].index:
+        vals = [_as_int(float(r[key])) for r in rows]
+        # integer-typed: k_1, k_2, SD, ND only (an int64 TS column overflows in TS**k_1 for TS=30, k_1=13 - reported, not part of this check)
+        as_int = key in ("k_1", "k_2", "SD", "ND") and all(isinstance(v, int) for v in vals)
+        cols[key] = np.array(vals, dtype=np.int64) if as_int else np.array([float(v) for v in vals])
+    return pd.DataFrame(cols, index=idx)
 
 
 def _same(a, b):
@@ -684,7 +730,8 @@ def _bc_cases(draw, tier):
                                    "frame_x_array", "frame_x_series_cross", "frame_x_series_aligned", "series_x_parray",
                                    "series_x_scalar_int", "series_x_array_int", "frame_x_scalar_int", "frame_x_array_int"]))
     nc = 1 if layout.startswith("series") else draw(st.integers(1, 4))
-    cs = [draw(curves()) for _ in range(nc)]
+    ints = draw(st.integers(0, 2)) == 0
+    cs = [draw(curves(ints=ints)) for _ in range(nc)]
     for c in cs[1:]:
         for key in ("TN", "TS", "p0"):
             c[key] = None if cs[0][key] is None else (c[key] if c[key] is not None else cs[0][key])
@@ -714,7 +761,9 @@ def broadcast(case, ctx):
     frame = lay.startswith("frame")
     obj = _container(cs, frame)
     acc = _acc(obj, case["acc"])
-    singles = [_acc(_pd_curve(c), case["acc"]) for c in cs]
+    singles = [_acc(_pd_curve(dict(c, ints=False)), case["acc"]) for c in cs]      # the oracle is the float64 evaluation
+    if cs[0].get("ints"):
+        ctx.label("params:int")
     kw = _kw(p)
     # values: relative to the first curve's native knee (loads) or ND (cycles); integer layouts use the integers themselves
     scale = 1.0 if "int" in lay else (cs[0]["SD"] if fn == "cycles" else cs[0]["ND"])
@@ -794,10 +843,111 @@ def broadcast(case, ctx):
             cmp(float(got), scalar(i, vals[i]), "curve %s" % lab)
     elif lay == "series_x_parray":
         ps = case["ps"]
-        res = np.asarray(getattr(acc, fn)(vals[0], np.array(ps)), dtype=float)
+        buf = np.array(ps, dtype=np.float64)
+        res = np.asarray(getattr(acc, fn)(vals[0], buf), dtype=float)
         if res.shape != (len(ps),):
             raise Violation("scalar x probability array: shape %r for %d probabilities" % (res.shape, len(ps)), bucket="broadcast:shape:" + lay)
+        # the caller reuses its buffer: second call on the same curve object with the array refilled in place
+        ps2 = [1.0 - q for q in ps]
+        buf[:] = ps2
+        res2 = np.asarray(getattr(acc, fn)(vals[0], buf), dtype=float)
+        t2 = np.asarray(acc.transform_to_failure_probability(buf).to_pandas()["failure_probability"], dtype=float)
+        if res2.shape != (len(ps),) or not np.array_equal(t2, np.array(ps2)):
+            raise Violation("probability array refilled in place: transformed curve reports failure probabilities %r, requested %r" %
+                            (t2.tolist(), ps2), bucket="broadcast:buffer-reuse:" + fn)
+        for j, q in enumerate(ps2):
+            cmp(float(res2[j]), scalar(0, vals[0], failure_probability=q), "probability %r (second call, same buffer refilled)" % q)
         for j, q in enumerate(ps):
             cmp(float(res[j]), scalar(0, vals[0], failure_probability=q), "probability %r" % q)
     else:       # pragma: no cover
         raise AssertionError(lay)
+
+
+# --------------------------------------------------------------------------- 9. operand and parameter number types
+DTYPES = ["int8", "int16", "int32", "int64", "uint8", "uint16", "uint32", "uint64", "float16", "float32", "float64", "pyint"]
+_DMAX = {"int8": 127, "int16": 32767, "int32": 2 ** 31 - 1, "int64": 2 ** 53, "uint8": 255, "uint16": 65535, "uint32": 2 ** 32 - 1,
+         "uint64": 2 ** 53, "pyint": 2 ** 53, "float16": 60000.0, "float32": 1e12, "float64": 1e12}
+
+
+@st.composite
+def _type_cases(draw, tier):
+    frame = draw(st.booleans())
+    ints = draw(st.booleans())
+    nc = draw(st.integers(1, 4)) if frame else 1
+    cs = [draw(curves(ints=ints)) for _ in range(nc)]
+    for c in cs[1:]:
+        for key in ("TN", "TS", "p0"):
+            c[key] = None if cs[0][key] is None else (c[key] if c[key] is not None else cs[0][key])
+        if cs[0]["k_2"] is None:
+            c["k_2"] = None
+        elif c["k_2"] is None:
+            c["k_2"] = "inf"
+    dt = draw(st.sampled_from(DTYPES))
+    cont = draw(st.sampled_from(["scalar", "array", "series"]))
+    n = 1 if cont == "scalar" else nc if frame else draw(st.integers(1, 5))
+    hi = math.log10(_DMAX[dt])
+    if dt.startswith("float"):
+        vals = [float(np.dtype(dt).type(10.0 ** e)) for e in draw(st.lists(st.floats(-1.0, hi, allow_nan=False), min_size=n, max_size=n))]
+    else:
+        vals = [float(max(1, min(int(_DMAX[dt]), int(10.0 ** e)))) for e in draw(st.lists(st.floats(0.0, hi, allow_nan=False), min_size=n, max_size=n))]
+    return {"curves": cs, "frame": frame, "dtype": dt, "container": cont, "vals": vals, "fn": draw(st.sampled_from(["cycles", "load", "load"])),
+            "p": draw(st.one_of(st.none(), PROBS)), "acc": draw(st.sampled_from(["woehler", "fatigue"]))}
+
+
+@subcheck(PROP, "operand_types", strategy=_type_cases, quick=3000, thorough=80000,
+          doc="loads / cycle numbers as int8..int64, uint8..uint64, float16/32/64 numpy scalars, arrays, Series or python ints, curve "
+              "parameters as integers (int64 Series, int64 columns next to a float k_2 column): same numbers as the float64 evaluation "
+              "of the same values, curve by curve and element by element (rtol 1e-12), result in float64")
+def operand_types(case, ctx):
+    cs, frame, dt, cont, fn = case["curves"], case["frame"], case["dtype"], case["container"], case["fn"]
+    ctx.label("dtype:" + dt, cont, fn, "frame" if frame else "series")
+    if cs[0].get("ints"):
+        ctx.label("params:int")
+        if any(isinstance(c["k_2"], float) and c["k_2"] != int(c["k_2"]) for c in cs):
+            ctx.label("params:int+float_k2")
+    ctx.nontrivial()
+    obj = _container(cs, frame)
+    acc = _acc(obj, case["acc"])
+    singles = [_acc(_pd_curve(dict(c, ints=False)), case["acc"]) for c in cs]
+    kw = _kw(case["p"])
+    vals = case["vals"]
+    if dt == "pyint":
+        typed = [int(v) for v in vals]
+        arr = list(typed) if cont != "series" else typed
+    else:
+        arr = np.array(vals, dtype=dt)
+        typed = [arr.dtype.type(v) for v in vals]
+        if [float(x) for x in arr] != vals:
+            raise AssertionError("harness: %r not representable as %s" % (vals, dt))
+    if cont == "scalar":
+        res = np.asarray(getattr(acc, fn)(typed[0], **kw))
+        want_shape = (len(cs),) if frame else ()
+    elif cont == "array":
+        res = np.asarray(getattr(acc, fn)(arr, **kw))
+        want_shape = (len(vals),)
+    else:
+        idx = obj.index if frame else pd.Index(["n%d" % j for j in range(len(vals))], name="node")
+        ser = pd.Series(arr, index=idx)
+        if dt != "pyint" and str(ser.dtype) != dt:
+            raise AssertionError("harness: Series dtype %s for %s" % (ser.dtype, dt))
+        out = getattr(acc, fn)(ser, **kw)
+        if not isinstance(out, pd.Series) or not out.index.equals(idx):
+            raise Violation("%s Series operand: result %s with index %r" % (dt, type(out).__name__, getattr(out, "index", None)), bucket="types:index")
+        res = np.asarray(out)
+        want_shape = (len(vals),)
+    if res.shape != want_shape:
+        raise Violation("%s %s operand: result shape %r, expected %r" % (dt, cont, res.shape, want_shape), bucket="types:shape")
+    if res.dtype != np.float64:
+        raise Violation("%s %s operand: result dtype %s, the float64 evaluation is promised for every number type" % (dt, cont, res.dtype),
+                        bucket="types:dtype:" + fn)
+    flat = res.reshape(-1)
+    for j in range(max(len(flat), 1)):
+        i = j if frame else 0
+        v = vals[0] if cont == "scalar" else vals[j]
+        want = _f(getattr(singles[i], fn)(float(v), **kw))
+        got = float(flat[j])
+        if not (got == want or _close(got, want, 1e-12)):
+            raise Violation("%s(%s %s %r) on %s = %r, float64 evaluation of the same number gives %r" %
+                            (fn, dt, cont, v, "curve %d of the frame" % i if frame else "the curve", got, want),
+                            bucket="types:%s:%s:%s" % (fn, "unsigned" if dt.startswith("u") else "signed" if dt.startswith("i") or dt == "pyint" else dt,
+                                                       "int-params" if cs[0].get("ints") else "float-params"))
